@@ -6,6 +6,7 @@ package main
 
 import (
 	"fmt"
+	"os"
 	"go/token"
 	"go/types"
 	"runtime"
@@ -45,6 +46,7 @@ type frame struct {
 	panic            interface{}
 	phitemps         []value
 	tolerant         bool // package init frame: unsupported calls yield opaque values
+	curPos           token.Pos
 }
 
 func (fr *frame) get(key ssa.Value) value {
@@ -139,6 +141,16 @@ func isControl(r interface{}) bool {
 
 type budgetExceeded struct{ what string }
 
+var debugTrace = os.Getenv("VERIF_TRACE") != ""
+
+// stepProf (VERIF_STEPPROF=1, single worker only): executed instructions per function.
+var stepProf = func() map[string]int {
+	if os.Getenv("VERIF_STEPPROF") != "" {
+		return map[string]int{}
+	}
+	return nil
+}()
+
 func (fr *frame) runDefers() {
 	for d := fr.defers; d != nil; d = d.tail {
 		fr.runDefer(d)
@@ -171,6 +183,9 @@ func (in *Interp) toInt(v value, what string) int {
 func visitInstr(fr *frame, instr ssa.Instruction) continuation {
 	in := fr.in
 	in.step()
+	if stepProf != nil {
+		stepProf[fr.fn.String()]++
+	}
 	switch instr := instr.(type) {
 	case *ssa.DebugRef:
 	case *ssa.UnOp:
@@ -810,6 +825,9 @@ func runFrame(fr *frame) {
 			return // normal return
 		}
 		r := recover()
+		if debugTrace && r != nil {
+			fmt.Fprintf(os.Stderr, "TRACE unwinding %s [%v]: %v\n", fr.fn.String(), fr.in.prog.Fset.Position(fr.curPos), r)
+		}
 		if isControl(r) {
 			panic(r)
 		}
@@ -821,6 +839,11 @@ func runFrame(fr *frame) {
 	for {
 		nonPhis := executePhis(fr)
 		for _, instr := range nonPhis {
+			if debugTrace {
+				if p := instr.Pos(); p.IsValid() {
+					fr.curPos = p
+				}
+			}
 			if fr.tolerant {
 				if visitTolerant(fr, instr) == kReturn {
 					return
